@@ -23,6 +23,23 @@ def run(R, job):
         def __init__(self, res): self.res = res
         def tagify(self): return self.res
 
+    import collections
+
+    class TgSeq(collections.UserList):
+        "a component that is also a sequence (a UserList of its parts): an object with a tagify() method like any other"
+        def __init__(self, res): super().__init__(["part", "<part>"]); self.res = res
+        def tagify(self): return self.res
+
+    class Inst:
+        "tagify() given per instance: some instances of the class have it, others are only self-rendering"
+        def _repr_html_(self): return "<inst/>"
+
+    def TgInst(res):
+        o = Inst(); o.res = res; o.tagify = lambda: res
+        return o
+
+    lost = []
+
     def dep(i):
         return core.HTMLDependency(f"d{i}", f"1.{i}")
 
@@ -32,6 +49,11 @@ def run(R, job):
             # a returned TagList must already be fully tagified (Tagifiable protocol): substitute nested objects by hand
             items = [y for _ in range(r.choice([0, 0, 1, 2, 3])) for y in subst(leaf(d))]
             tl = core.TagList(); tl.data = items
+            if items and r.random() < 0.25:
+                # a list put into the result by item assignment: still "a returned TagList spliced into the sibling list in order"
+                j = r.randrange(len(items))
+                inner = core.TagList(); inner.data = [items[j]] + ([dep(3)] if r.random() < 0.5 else [])
+                tl[j] = inner
             return tl
         if k < 0.5:
             return core.Tag("em", "x", _add_ws=False)
@@ -58,17 +80,26 @@ def run(R, job):
         kids = []
         for _ in range(r.choice([0, 1, 2, 3, 4])):
             if r.random() < 0.35:
-                kids.append(r.choice([Tg, Tg, Tg, TgRepr, TgMeta])(expansion(d)))
+                kids.append(r.choice([Tg, Tg, Tg, TgRepr, TgMeta, TgSeq, TgInst])(expansion(d)))
+            elif r.random() < 0.05:
+                kids.append(Inst())
             else:
                 kids.append(leaf(d))
-        return core.Tag(r.choice(["div", "span", "p", "ul"]), *kids, _add_ws=r.random() < 0.6)
+        t_ = core.Tag(r.choice(["div", "span", "p", "ul"]), *kids, _add_ws=r.random() < 0.6)
+        # an object with a tagify() method given as a child sits in the tree as that object (it is expanded by tagify(), not taken apart on the way in)
+        for k_ in kids:
+            if (isinstance(k_, (Tg, TgMeta, TgSeq)) or isinstance(k_, Inst)) and not any(c_ is k_ for c_ in t_.children):
+                lost.append(type(k_).__name__)
+        return t_
 
     def subst(x):
-        if isinstance(x, (Tg, TgMeta)):
+        if isinstance(x, (Tg, TgMeta, TgSeq)) or (isinstance(x, Inst) and hasattr(x, "res")):
             e = x.res
             if isinstance(e, core.TagList):
                 return [y for k in e for y in subst(k)]
             return subst(e) if not isinstance(e, (str, core.HTML)) else [e]
+        if isinstance(x, core.TagList):
+            return [y for k in x for y in subst(k)]
         if isinstance(x, core.Tag):
             cp = copy.copy(x)
             cp.children = core.TagList()
@@ -104,10 +135,14 @@ def run(R, job):
             fails.append({"input": f"div('pre', <Tag subclass whose tagify() returns TagList{kids!r}>, 'post')", "observed": r1["html"] + " deps=" + str([d.name for d in r1["dependencies"]]),
                           "expected": r2["html"] + " deps=" + str([d.name for d in r2["dependencies"]])})
     for _ in range(n):
+        del lost[:]
         t = build(3)
         if not isinstance(t, core.Tag):
             continue
         checked += 1
+        if lost:
+            fails.append({"input": describe(t, ctx), "observed": f"a {lost[0]} object (it has a tagify() method) given as a child is not in the tree: it was taken apart or dropped when the tag was built",
+                          "expected": "the object itself as a child, expanded by tagify()"})
         has_obj = "Tg" in repr([type(k).__name__ for k in walk(t, core)])
         nontrivial += has_obj
         manual = subst(t)[0]
